@@ -327,9 +327,131 @@ except CycleError as $e:
             "PartitionInducedCycleError")
 
 
+def _accumulating_helpers(fd):
+    """{helper name: table} for nested functions that add into a dict of sets:
+    `T.setdefault(k, set()).add(v)` / `T[k].add(v)`"""
+    out = {}
+    for h in ast.walk(fd):
+        if isinstance(h, ast.FunctionDef) and h is not fd:
+            for e in find(h, "$t.setdefault($k, set()).add($v)") + find(h, "$t[$k].add($v)"):
+                out[h.name] = e["$t"]
+    return out
+
+
+def r_no_reinit(c):
+    """edges accumulated into the part graph are never thrown away: an entry of
+    an accumulator table is not (re)assigned after something was added to it"""
+    m = c.model
+    fd = m.func(D + "verify.verify_distributed_partition")
+    helpers = _accumulating_helpers(fd)
+    tables = set(helpers.values())
+    if not tables:
+        raise AnalysisError("anchor vanished: accumulating helper in verify_distributed_partition")
+    for tbl in sorted(tables):
+        def cl(n, tbl=tbl):
+            if isinstance(n, ast.Call) and isinstance(n.func, ast.Name) \
+                    and helpers.get(n.func.id) == tbl:
+                return "ACC"
+            if isinstance(n, ast.Call) and isinstance(n.func, ast.Attribute) \
+                    and n.func.attr in ("add", "update") \
+                    and isinstance(n.func.value, ast.Subscript) \
+                    and ast.unparse(n.func.value.value) == tbl:
+                return "ACC"
+            if isinstance(n, ast.Subscript) and isinstance(n.ctx, ast.Store) \
+                    and ast.unparse(n.value) == tbl:
+                return "INIT"
+            return None
+        # per iteration of the loop(s) that contain an initialisation
+        loops = [l for l in ast.walk(fd) if isinstance(l, ast.For) and any(
+            isinstance(x, ast.Subscript) and isinstance(x.ctx, ast.Store)
+            and ast.unparse(x.value) == tbl for x in ast.walk(l))]
+        n_init = 0
+        for l in loops:
+            if any(l is not o and any(l is x for x in ast.walk(o)) for o in loops):
+                continue        # analysed as part of the outer loop
+            body = ast.FunctionDef(name="_iteration", args=fd.args, body=l.body,
+                                   decorator_list=[], returns=None, lineno=l.lineno,
+                                   col_offset=0)
+            ps = P.walk(body, cl)
+            n_init += 1
+            bad = [e for e, _x in ps if "INIT" in e and "ACC" in e
+                   and e.index("ACC") < len(e) - 1 - e[::-1].index("INIT")]
+            c.check(not bad, "R10-CYCLE", "distributed.verify.verify_distributed_partition",
+                    f"{tbl}:no-assignment-after-accumulation", m.loc(m.module_of(fd), l),
+                    f"within one iteration an entry of {tbl} is assigned after edges were "
+                    "added to it: the edges added before (receive -> sending part) are "
+                    "lost and cycles through them are never found")
+        if not n_init:
+            c.ok("R10-CYCLE", "distributed.verify.verify_distributed_partition",
+                 f"{tbl}:no-assignment-after-accumulation", m.loc(m.module_of(fd), fd),
+                 "entries are only created by the accumulating helper", nontrivial=False)
+    # the allreduce operator that merges the ranks' dependency tables keeps both sides
+    u = m.func(D + "partition._set_dict_union_mpi")
+    a, b = u.args.args[0].arg, u.args.args[1].arg
+    ok = False
+    for e in find(u, f"for $k, $v in {b}.items():\n    $r[$k] = $$rhs"):
+        rhs = e["@node"].body[0].value
+        if has(u, f"{e['$r']} = dict({a})") and isinstance(rhs, ast.BinOp) \
+                and isinstance(rhs.op, ast.BitOr):
+            sides = {ast.unparse(rhs.left), ast.unparse(rhs.right)}
+            ok = sides == {e["$v"], f"{e['$r']}.get({e['$k']}, FrozenOrderedSet())"}
+    c.check(ok, "R10-CYCLE", "distributed.partition._set_dict_union_mpi", "key-wise-union",
+            m.loc(m.module_of(u), u),
+            "the reduction operator is not result[k] = result.get(k, empty) | values for "
+            "every entry of the second table: dependencies known to one rank only are "
+            "dropped and a cross-rank cycle goes unnoticed")
+
+
+def r_global_guards(c):
+    """whether a rank walks the globally agreed schedule does not depend on
+    what that rank has locally: the comparison `schedule vs. local nodes` is
+    the diagnostic, a local omission must not be able to switch it off"""
+    m = c.model
+    f = m.func(D + "partition.find_distributed_partition")
+    comm = f.args.args[0].arg
+    glob = set()
+    for a in ast.walk(f):
+        if isinstance(a, ast.Assign) and isinstance(a.value, ast.Call) \
+                and ast.unparse(a.value.func) in (f"{comm}.bcast", f"{comm}.allreduce",
+                                                   "_schedule_task_batches"):
+            glob |= {t.id for t in a.targets if isinstance(t, ast.Name)}
+    changed = True
+    while changed:
+        changed = False
+        for a in ast.walk(f):
+            if isinstance(a, ast.Assign) and isinstance(a.value, ast.Name) \
+                    and a.value.id in glob:
+                for t in a.targets:
+                    if isinstance(t, ast.Name) and t.id not in glob:
+                        glob.add(t.id)
+                        changed = True
+    loops = [l for l in ast.walk(f) if isinstance(l, ast.For) and isinstance(l.iter, ast.Name)
+             and l.iter.id in glob]
+    if not loops:
+        raise AnalysisError("anchor vanished: loop over the broadcast schedule")
+    for l in loops:
+        p = l._parent
+        ch = l
+        tests = []
+        while p is not f:
+            if isinstance(p, ast.If) and ch in p.body:
+                tests.append(p.test)
+            ch, p = p, p._parent
+        local = sorted({n.id for t in tests for n in ast.walk(t) if isinstance(n, ast.Name)
+                        and n.id not in glob and n.id != "__debug__"})
+        c.check(not local, "R10-RAISE-REACH",
+                "distributed.partition.find_distributed_partition",
+                f"schedule-loop-guarded-by-global-values-only:for {m.frag(l.target, 20)} in "
+                f"{l.iter.id}", m.loc(m.module_of(f), l),
+                f"the loop over the broadcast schedule `{l.iter.id}` is skipped depending on "
+                f"rank-local data ({local}): a rank that lost its only send/receive builds no "
+                "parts, so the missing-send/missing-receive comparison has nothing to check")
+
+
 SPEC = Spec(
     prop="C10",
-    rules=[r_raise_reach, r_check_before_insert, r_who_may_construct, r_cycle],
+    rules=[r_raise_reach, r_check_before_insert, r_who_may_construct, r_cycle, r_no_reinit,
+           r_global_guards],
     floors={"R10-RAISE-REACH": 8, "R10-CHECK-BEFORE-INSERT": 10, "R10-SELF": 4, "R10-CYCLE": 5},
     explanation=(
         "Decides code-shape conditions, not 'every malformed pattern is caught'. "
